@@ -141,10 +141,33 @@ def make_case(inp):
                     pass
             specs.append("(RWrite %s %s)" % (L(r["rows"], lambda x: L(x, S)), B(r["close"])))
     log = [list(e) for e in V.LOG]
+    # one Reader reading its data a second time drives the same calls as the first time (header and limit count from the
+    # start again); done after the observed runs, on the same CID
+    second_pass = None
+    reads = [r for r in inp["runs"] if r["kind"] == "read" and r.get("api") != "validate"]
+    if reads and (spec.get("header", 0) or reads[0]["limit"] is not None):
+        r = reads[0]
+        stream = io.StringIO(V.encode(spec, r["table"], broken_tail=r.get("fault", False)), newline="")
+        reader = validio.Reader(cid, stream, on_error=r["mode"], validate_until=r["limit"])
+        passes = []
+        for _k in (0, 1):
+            del V.LOG[:]
+            stream.seek(0)
+            try:
+                for _ in reader.rows():
+                    pass
+            except Exception:  # noqa
+                pass
+            passes.append([list(e) for e in V.LOG])
+        del V.LOG[:]
+        if passes[0] != passes[1]:
+            second_pass = "the second pass of one Reader drives other calls than the first: %r instead of %r" % (passes[1][:8], passes[0][:8])
     # the log of building a throw-away CID for raw_rows must not be counted: it only constructs, never runs
     coq = P(P(V.coq_cid(spec), L(specs, str)), L(canon_log(log, spec), str))
     nontrivial = any(e[0] in ("value", "check_row") for e in log)
     tags = [spec["format"]] + sorted({r["kind"] + ":" + r.get("mode", "w") for r in inp["runs"]}) + ["runs%d" % len(inp["runs"])]
+    if second_pass:
+        log = log + [["second-pass-differs", second_pass]]
     return {"coq": coq, "obs": log, "nontrivial": nontrivial, "tags": tags}
 
 
@@ -154,6 +177,8 @@ def direct_oracle(inp, obs):
     if obs and obs[0][0] == "declaration-refused":
         return "the CID naming the plugin classes %r was refused: %s" % (inp["spec"].get("rec_name", "Rec"), obs[0][1])
     for e in obs:
+        if e[0] == "second-pass-differs":
+            return e[1]
         if e[0] == "value" and (e[2] == "" or (fixed and e[2] != e[2].strip())):
             return "validated_value was called with %r" % e[2]
     return None
